@@ -66,6 +66,10 @@ CLAIMED = {
    technique="bounded-exhaustive enumeration of encoder x geometry x parameter x content with independent strict marker walkers (JPEG/JPEG-LS/JPEG 2000), plus exhaustive enumeration of all bit strings up to a length bound through the three bit writers",
    text="Every bit string of length <= 16 (thorough 20) through standard.HuffmanEncoder, the JPEG-LS GolombWriter and the JPEG 2000 packet-header bioWriter: escaping/stuffing, no marker emulation, no trailing 0xFF, read-back, byte alignment (this component check is what pins the 0xFF-terminated packet header defect fixed under C04). All 164 pass-count codewords. Streams of 10 encoders over sizes incl. 256x1, 257x2, 65535x1, 1x65535, components, precisions, predictors, NEAR, quality, levels, layers, progressions, 192 tile grids up to 64 tiles and noise images are walked: SOI/SOC first, segment lengths, no unescaped marker in entropy data, Psot/TLM sums, EOI/EOC last with nothing after, declared geometry/precision/sign/NEAR/predictor/transform equal to the arguments.",
    note="Trusted: the walkers. MQ-coder output constraints are asserted on every sequence of the C20 space."),
+ "C10": dict(engine="E2 statespace over histories", design="§4 C10",
+   technique="explicit enumeration of all frame sequences up to a length bound through every registered codec, and of all call histories up to depth 3 on live codec / jpeg2000.Encoder / jpeg2000.Decoder objects, each compared with history-free results and with a deep state key read by reflection",
+   text="(1) every frame sequence of length 1..3 (thorough 4) over {zeros, ramp, noise, MAX} x 14 codecs x BitsAllocated/BitsStored pairs (incl. stored < allocated) x SPP x sizes: one AddFrame per frame in order, frame i encodes/decodes exactly as alone, encoding twice is byte-identical, source buffers untouched (the PixelData hands out the caller's own slices), decoded size from BitsAllocated, lossless equality. (2) every history of depth <= 3 over {Encode A, Encode B, Decode A, Decode B} on each registry instance with before/after deep state comparison. (3) 6 parameter sets x every history of depth <= 3 over 4 frames on one jpeg2000.Encoder vs fresh encoders. (4) all 584 histories of depth <= 3 over 8 stream kinds (grey, RCT, no MCT, ICT, ROI, custom MCT, tiled, HTJ2K) on one jpeg2000.Decoder vs fresh decoders.",
+   note="State keys are deep renderings of all fields (unexported too) via reflect+unsafe; no abstraction, so merging is trivially sound. Configurations a codec declines with an error are counted, not judged. One known finding (BitsStored<=8 in 16-bit containers)."),
 }
 NOT_APPLICABLE = {}
 
